@@ -173,6 +173,34 @@ for _ in range(40):
         w = v[slice(a, b, c)]; return ((w._start_address, w._end_address),) + st(v)   # NB after the constructor's clipping
     add("(fun r => match r with | Except.ok ((a, b), t) => Except.ok ((a, max a b), t) | Except.error e => Except.error e) (SlicedMemoryIO_getitem %s (%s, %s, %s))" % (args, O(a), O(b), O(c)), exc(g))
 
+import warnings as _w
+class PRec(object):
+    _freed = False
+    def __init__(self): self.ev = []
+    def _perform_read(self, a, n): self.ev.append(("_perform_read", [a, n], [])); return b"\x07" * 3
+    def _perform_write(self, a, d): self.ev.append(("_perform_write", [a], [int(b) for b in bytearray(d)]))
+def EV(evs):
+    return "[" + ",".join('{name:="%s",ints:=%s,bytes:=%s}' % (n, show(i), show(b)) for n, i, b in evs) + "]"
+for _ in range(60):
+    s_, e_, off = rng.randint(0, 30), rng.randint(0, 40), rng.randint(-5, 45)
+    par = PRec(); v = SlicedMemoryIO(par, s_, e_); v._offset = off
+    args = "%s %s %s" % (L(v._start_address), L(v._end_address), L(off))
+    if rng.random() < 0.5:
+        n = rng.randint(-3, 50)
+        with _w.catch_warnings(record=True) as wl:
+            _w.simplefilter("always")
+            r = v.read(n)
+        evs = ([("warn", [], [])] if wl else []) + par.ev
+        add("SlicedMemoryIO_read %s %s [7, 7, 7]" % (args, L(n)),
+            "(" + ",".join([show([int(b) for b in bytearray(r)])] + [show(x) for x in st(v)] + [EV(evs)]) + ")")
+    else:
+        d = [rng.getrandbits(8) for _ in range(rng.randint(0, 12))]
+        with _w.catch_warnings(record=True) as wl:
+            _w.simplefilter("always")
+            r = v.write(bytes(bytearray(d)))
+        evs = ([("warn", [], [])] if wl else []) + par.ev
+        add("SlicedMemoryIO_write %s %s" % (args, L(d)), "(" + ",".join([show(r)] + [show(x) for x in st(v)] + [EV(evs)]) + ")")
+
 cases = [c for c in cases if c[1] != ""]
 src = "import RigModel.Gen.PyFun\nopen Rig.Gen.PyFun\n" + "".join("#eval %s\n" % c[0] for c in cases)
 HERE = os.path.dirname(os.path.dirname(os.path.abspath(__file__)))
